@@ -4,6 +4,7 @@ import Model.Score
 import Model.Left
 import Generated.C08
 import Proofs.LeftDeriv
+import Proofs.LeftQuirk
 import Proofs.WellFormed
 /-! C08 — Chart-state scoring equals left-to-right scoring for every derivation.
 
@@ -114,6 +115,27 @@ theorem any_derivation (a : Arpa) (wf : WellFormed a) (hp : ContextsOnlyBackoff 
     (hv : ValidWords a r.yield) :
     (ruleScore (build a) R (some bos) r).2 = specSeq a [bos] r.yield :=
   (any_derivation_table a (build a) (hyp_build a wf hp) R bos r hv).1
+
+/-- the probing structures (whose unigram sign-bit quirk reports some unigrams as extending left although no bigram
+ends in them — known finding of C01 — and therefore keep one more pointer in the left state): same total -/
+theorem any_derivation_probing (a : Arpa) (wf : WellFormed a) (hp : ContextsOnlyBackoff a) (R : Ptr → Rat) (bos : Word) (r : Rule)
+    (hv : ValidWords a r.yield) :
+    (ruleScore (withSignQuirk a (build a)) R (some bos) r).2 = specSeq a [bos] r.yield :=
+  (any_derivation_table a _ (hyp_quirk (hyp_build a wf hp)) R bos r hv).1
+
+/-- `BeginNonTerminal(in, prob)` puts `RuleScore` into the canonical state of the incoming fragment, so a rule that
+starts with it is covered by `nonterminal_frag`/`terminal_frag` like any other (and gives the same fragment as
+`NonTerminal` on a fresh `RuleScore`, `derivation_frag`) -/
+theorem beginNonTerminal_frag (a : Arpa) (T : Table) (R : Ptr → Rat) (ws : List Word) (L : Nat) (c : Chart) (p : Rat)
+    (G : FragC a T R ws L c p) : Frag a T R ws L (beginNonTerminal c p) :=
+  ⟨G.right_for, G.right_norm, G.L_le, G.L_lt, G.ptrs, G.ptr_xl, G.prob_eq, G.open_, G.closed⟩
+
+theorem beginNonTerminal_rule (a : Arpa) (T : Table) (H : Hyp a T) (R : Ptr → Rat) (ws : List Word) (L : Nat) (c : Chart) (p : Rat)
+    (G : FragC a T R ws L c p) (r : Rule) (hv : ValidWords a r.yield) :
+    ∃ L', FragC a T R (ws ++ r.yield) L' (finish T.order (applyRule T R (beginNonTerminal c p) r)).1
+      (finish T.order (applyRule T R (beginNonTerminal c p) r)).2 := by
+  obtain ⟨L', F⟩ := applyRule_frag H R r (beginNonTerminal_frag a T R ws L c p G) hv
+  exact ⟨L', finish_frag H R F⟩
 
 /-- … which is the total of scoring the words left to right with `FullScore` from `BeginSentenceState` -/
 theorem any_derivation_leftToRight (a : Arpa) (wf : WellFormed a) (hp : ContextsOnlyBackoff a) (R : Ptr → Rat) (bos : Word)
